@@ -597,6 +597,9 @@ class Env:
         if "state" in tags:
             rec["state"] = tags["state"]
         self._sink("metric", rec)
+        if self.flavours and isinstance(tags, dict):
+            tags.clear()                  # a hook may do what it likes with the mapping it is handed
+            tags["class"] = "scribbled"
         self._hook_raises("metric")
         if self.flavours:
             return False                  # whatever a hook returns is of no consequence
@@ -611,6 +614,9 @@ class Env:
         if "state" in f:
             rec["state"] = f["state"]
         self._sink("log", rec)
+        if self.flavours and isinstance(fields, dict):
+            fields.clear()
+            fields["attempt"] = -99
         self._hook_raises("log")
 
     # ------------------------------------------------------------------ budget
